@@ -87,8 +87,8 @@ def rule_class_resolution(ctx):
     ctx.res.minimum("O20.2", 4)
 
     # (a) the maps hold EVERY subclass of the abstract base, keyed by the plain class name - also a user's class that
-    # derives from a built-in one (a subclass of a subclass).  Interpreted on a two-level hierarchy handed out by a
-    # stubbed __subclasses__ (repository classes serve as stand-ins: base -> [first, second], first -> [third]).
+    # derives from a built-in one (a subclass of a subclass).  Interpreted on a three-level hierarchy handed out by a
+    # stubbed __subclasses__ (repository classes serve as stand-ins: base -> [first, second], first -> [third], third -> [fourth]).
     def map_cell(ch):
         base = ch.choose("base", ["cutplace.fields.AbstractFieldFormat", "cutplace.checks.AbstractCheck"])
         suffix = "FieldFormat" if "fields" in base else "Check"
@@ -97,7 +97,8 @@ def rule_class_resolution(ctx):
             return None
         first, second = stand_ins[0], stand_ins[1]
         third = model.cls("cutplace.errors.Location")  # any third class: only its name is looked at
-        hierarchy = {base: [first, second], first.qualname: [third], second.qualname: [], third.qualname: []}
+        fourth = model.cls("cutplace.ranges.Range")  # a third level (round 11: a scan of two levels passed the two-level table)
+        hierarchy = {base: [first, second], first.qualname: [third], second.qualname: [], third.qualname: [fourth], fourth.qualname: []}
         asked = []
         interp = Interp(model, ch)
 
@@ -121,7 +122,7 @@ def rule_class_resolution(ctx):
         interp.getattr = patched_getattr
         result = interp.call_function(model.func(CID + "._create_name_to_class_map"), [ClassRef(model.cls(base))], {}, None)
         names = sorted(result) if isinstance(result, dict) else result
-        expected = sorted([first.name, second.name, third.name])
+        expected = sorted([first.name, second.name, third.name, fourth.name])
         targets_ok = isinstance(result, dict) and all(isinstance(v, ClassRef) and v.info.name == k for k, v in result.items())
         return ("map of " + suffix, (names, targets_ok, bool(asked)), (expected, True, True))
 
